@@ -41,7 +41,8 @@ CONFIG = dict(
                    'starts equal to the origin; existing copies and the shared state untouched), C08_shared_only (what copy j reports afterwards '
                    'is a function of its old private state and the new shared state only; the shared parts are the enumerated records), '
                    'C08_twin (+ instances for TreeDiff, BlobCache, allocator, TicksSinceStart, the chained plumbing pipeline: inside any '
-                   'interleaving every copy answers exactly like a private never-forked instance), C08_burndown_files, '
+                   'interleaving every copy answers exactly like a private never-forked instance), C08_lineage_twin (the same for copies made by '
+                   'forks of forks: every copy is in the state of a fresh instance that consumed its lineage - the harness oracle), C08_burndown_files, '
                    'C08_same_item_shares_everything; all closed under the global context. The aliasing half of the property is carried by '
                    'the correspondence check: every copy of the real objects is compared with its own independent model state after every '
                    'step, and three implementation-only oracles (sibling unchanged, fork copy equals origin, copy = private twin) judge the '
